@@ -966,3 +966,24 @@ CASES += [
          old="""                    node[i] = SddAnd::new(self.or(node[i].prime(), node[j].prime()), node[i].sub());""",
          new="""                    node[i] = SddAnd::new(self.or(node[j].prime(), node[i].prime()), node[j].sub());"""),
 ]
+
+VTF = "src/repr/vtree.rs"
+CASES += [
+    dict(name="vt-right-linear-repeats-first", file=VTF, rule="VT", props=["C14"], expect="right_linear:slice-partition",
+         old="""            [cur, rest @ ..] => {
+                let l_tree = BTree::Leaf(*cur);
+                let r_tree = Self::right_linear(rest);""",
+         new="""            [cur, _rest @ ..] => {
+                let l_tree = BTree::Leaf(*cur);
+                let r_tree = Self::right_linear(order);"""),
+    dict(name="vt-even-split-drops-middle", file=VTF, rule="VT", props=["C14"], expect="even_split:slice-partition",
+         old="""            let (l_s, r_s) = order.split_at(order.len() / 2);
+            let l_tree = Self::even_split(l_s, num_splits - 1);
+            let r_tree = Self::even_split(r_s, num_splits - 1);""",
+         new="""            let (l_s, r_s) = order.split_at(order.len() / 2);
+            let l_tree = Self::even_split(l_s, num_splits - 1);
+            let r_tree = Self::even_split(&r_s[1..], num_splits - 1);"""),
+    dict(name="vt-even-split-third-ok", file=VTF, rule="VT", props=["C14"], expect=None,
+         old="""            let (l_s, r_s) = order.split_at(order.len() / 2);""",
+         new="""            let (l_s, r_s) = order.split_at((order.len() + 1) / 2);"""),
+]
